@@ -1074,6 +1074,8 @@ _RENAME_TARGETS = [
     (N, 'NautilusBound.contains'), (N, 'NautilusBound.compute'), (PS, 'PhaseShift.transform'),
     (PR, 'Prior.add_parameter'), (PR, 'Prior.physical_to_dictionary'),
     (NE, 'NeuralBound.contains'), (B, 'UnitCubeEllipsoidMixture.sample'),
+    (N, 'NautilusBound._reset_and_sample'), (PR, 'Prior.unit_to_physical'),
+    (S, 'Sampler.log_v_live'), (NN, 'NeuralNetworkEmulator.write'), (U, 'Union.write'),
 ]
 
 BENIGN += [dict(id='%s:%s' % (k, f_.split('/')[-1]), file=f_, old='import', new=None,
